@@ -417,11 +417,11 @@ struct Env {
 fn env() -> &'static Result<Env, String> {
     static E: OnceLock<Result<Env, String>> = OnceLock::new();
     E.get_or_init(|| {
-        let sylt = PathBuf::from(std::env::var("SYLT_BIN").unwrap_or_else(|_| DEFAULT_SYLT_BIN.to_string()));
+        let sylt = PathBuf::from(std::env::var("SYLT_BIN").unwrap_or_else(|_| DEFAULT_SYLT_BIN.replace("/verif", &vcore::verif_root().to_string_lossy())));
         if !sylt.is_file() {
             return Err("infra:sylt-binary-missing".into());
         }
-        let lua_dir = PathBuf::from(std::env::var("SYLT_LUA_DIR").unwrap_or_else(|_| DEFAULT_LUA_DIR.to_string()));
+        let lua_dir = PathBuf::from(std::env::var("SYLT_LUA_DIR").unwrap_or_else(|_| DEFAULT_LUA_DIR.replace("/verif", &vcore::verif_root().to_string_lossy())));
         if !lua_dir.join("lua").is_file() {
             return Err("infra:lua-binary-missing".into());
         }
